@@ -294,33 +294,30 @@ pub fn control_target_has_increments(s: &Schema) -> bool {
 /// the same generic group rule is referenced from map groups with two different argument lists
 pub fn generic_rule_instantiated_twice(s: &Schema) -> bool {
   use vcore::cmodel::{walk_schema, EntKind, Ty, Ty2};
-  let seen: std::cell::RefCell<Vec<(String, String)>> = std::cell::RefCell::new(vec![]);
-  let add = |name: &str, args: &[vcore::cmodel::Ty1]| {
+  // (name, arguments, inside a map group)
+  let seen: std::cell::RefCell<Vec<(String, String, bool)>> = std::cell::RefCell::new(vec![]);
+  let add = |name: &str, args: &[vcore::cmodel::Ty1], in_map: bool| {
     if !args.is_empty() {
       let r = vcore::cmodel::render_ty(&Ty(args.to_vec()));
-      seen.borrow_mut().push((name.to_string(), r));
+      seen.borrow_mut().push((name.to_string(), r, in_map));
     }
   };
   walk_schema(
     s,
-    &mut |e, in_map| {
-      if !in_map {
-        return;
-      }
-      match &e.kind {
-        EntKind::Ref { name, args } => add(name, args),
-        EntKind::Val { key: None, ty } => {
-          if let Some(t1) = ty.0.first() {
-            if let (Ty2::Name { name, args }, None) = (&t1.t2, &t1.op) {
-              add(name, args);
-            }
+    &mut |e, in_map| match &e.kind {
+      EntKind::Ref { name, args } => add(name, args, in_map),
+      EntKind::Val { key: None, ty } => {
+        if let Some(t1) = ty.0.first() {
+          if let (Ty2::Name { name, args }, None) = (&t1.t2, &t1.op) {
+            add(name, args, in_map);
           }
         }
-        _ => {}
       }
+      _ => {}
     },
     &mut |_| {},
   );
   let v = seen.into_inner();
-  v.iter().any(|(n, a)| v.iter().any(|(n2, a2)| n == n2 && a != a2))
+  // at least one of the two instantiations sits in a map group (the other may be in an array nested below it)
+  v.iter().any(|(n, a, m)| v.iter().any(|(n2, a2, m2)| n == n2 && a != a2 && (*m || *m2)))
 }
